@@ -57,6 +57,13 @@ var retryableStatusCodes = []string{
 	strconv.Itoa(http.StatusNetworkAuthenticationRequired), // 511 - Network Authentication Required
 }
 
+func init() {
+	// The codes above 511 are server errors as well.
+	for code := 512; code <= 599; code++ {
+		retryableStatusCodes = append(retryableStatusCodes, strconv.Itoa(code))
+	}
+}
+
 // Config defines configuration for retry behavior.
 type Config struct {
 	// MaxRetries specifies the maximum number of retry attempts for requests.
